@@ -255,6 +255,14 @@ def check_c14(exe, tier, seed, verdict):
         cases.append(("opt-%d" % n, ["newopt 1 %s" % hx("ROOT_PREFIX=" + long_root + ";PARSING_DIRS=" + ":".join("/d" + "y" * (n // 3) for _ in range(3))),
                                       "readconfig 1 %s %s %s %s x3d x23" % (hx("p"), hx("/usr"), hx("c"), hx("conf")), "free 1"]))
     res = core.run_cases(exe, cases, per_case_timeout=120)
+    # the longest fields once more with the whole script interpreted by a thread whose stack is 256 KiB (uninstrumented build):
+    # what the library puts on the stack must not grow with the length (or the number) of the fields it handles
+    small = [("smallstack-%s-%d" % (kind, n), ["watchdog 600", "longprobe %s %d %s" % (kind, n, hx(ROOT + "/ls"))]) for kind in KINDS for n in (65536, 1 << 20)]
+    small.append(("smallstack-many-comments", ["file %s %s" % (hx(ROOT + "/lsm/in.conf"), hx("".join("#%s\nk%d=v #%s\n" % ("c" * 10000, j, "t" * 10000) for j in range(20)))),
+                   "readfile 1 %s x3d x23" % hx(ROOT + "/lsm/in.conf"), "write 1 %s %s" % (hx(ROOT + "/lsm"), hx("out.conf")),
+                   "readfile 2 %s x3d x23" % hx(ROOT + "/lsm/out.conf"), "get String 2 - %s" % hx("k19"), "free 1", "free 2"]))
+    res.update(core.run_cases(core.build("plain"), small, per_case_timeout=600, env={"DRV_STACK_KB": "256"}))
+    cases = cases + small
     events = []
     nn = 0
     for cid, _ in cases:
@@ -285,7 +293,7 @@ def check_c14(exe, tier, seed, verdict):
         verdict.violation("C14:%s:%s" % (e["kind"], e["api"].replace(" ", "")), {"kind": "long", "event": e, "spec": x["spec"]},
                           "%s of %d bytes through %s: %s, %d bytes came back, head intact %s, tail intact %s" % (e["kind"], e["len"], e["api"], e["rc"], e["out_len"], e["head_ok"], e["tail_ok"]))
     cov = {"evaluations": len(events), "distinct_nontrivial": nn,
-           "rule": "field kinds {value, quoted value, key, section name, continuation line, comment before, comment after, second definition joined under JOIN_SAME_ENTRIES} x lengths {EVERY length 1..%d and BUFSIZ-70..BUFSIZ+70%s, 2*BUFSIZ, 64 Ki, %s} through: econf_readFile, plain / extended getters, listings, econf_mergeFiles + getters, econf_writeFile + econf_readFile + getters, and the setters; file names of 6..256 bytes read directly and as drop-in; MAIN file names of 12..256 bytes (with suffix) through econf_readDirs, econf_readConfig and econf_readDirsHistory; paths of 200 and PATH_MAX-3 .. PATH_MAX+2 bytes; option strings of 8 Ki .. 70 Ki. The field carries distinct head and tail markers; Envelope!TLong requires out_len = len and both markers (names beyond NAME_MAX / PATH_MAX: an error code, no crash). non-trivial = length >= BUFSIZ-2." % (330 if tier == "quick" else 1099, "" if tier == "quick" else ", around 2*BUFSIZ and 64 Ki", "1 Mi" if tier == "thorough" else "200000"),
+           "rule": "field kinds {value, quoted value, key, section name, continuation line, comment before, comment after, second definition joined under JOIN_SAME_ENTRIES} x lengths {EVERY length 1..%d and BUFSIZ-70..BUFSIZ+70%s, 2*BUFSIZ, 64 Ki, %s} through: econf_readFile, plain / extended getters, listings, econf_mergeFiles + getters, econf_writeFile + econf_readFile + getters, and the setters; file names of 6..256 bytes read directly and as drop-in; MAIN file names of 12..256 bytes (with suffix) through econf_readDirs, econf_readConfig and econf_readDirsHistory; paths of 200 and PATH_MAX-3 .. PATH_MAX+2 bytes; option strings of 8 Ki .. 70 Ki. The field carries distinct head and tail markers; Envelope!TLong requires out_len = len and both markers (names beyond NAME_MAX / PATH_MAX: an error code, no crash). Every kind once more at 64 Ki and 1 Mi on a thread with a 256 KiB stack (uninstrumented build), plus 20 entries with two 10000-byte comments each, written and read back there. non-trivial = length >= BUFSIZ-2." % (330 if tier == "quick" else 1099, "" if tier == "quick" else ", around 2*BUFSIZ and 64 Ki", "1 Mi" if tier == "thorough" else "200000"),
            "samples": events[:3], "exhaustive": True,
            "trusted_base": ["gcc ASan/UBSan", "TLC 1.8.0 (Envelope!TLong)", "drv.c longprobe/longname"]}
     return cov
